@@ -413,7 +413,17 @@ def directed_fills(fam: str, rnd: random.Random) -> list[dict]:
             regs.update({30103: a, 30104: b, 30105: c, 30106: d, 30107: b, 30108: a, 30118: a, 30121: b, 30119: c, 30122: d,
                          30120: d, 30123: c})
             out.append({"set": {str(k2): v for k2, v in regs.items()}})
-    else:
+    if fam in ("ET", "DT"):
+        # the inverter's clock (first three registers of the running block): valid dates over the whole year range
+        # (a clock that restarted at 2000-01-01, the turn of 2010, the years with the top bit set) and invalid ones
+        t0 = 35100 if fam == "ET" else 30100
+        for y, mo, d, h, mi, sec in ((0, 1, 1, 0, 3, 17), (9, 12, 31, 23, 59, 59), (10, 1, 1, 0, 0, 0), (24, 2, 29, 12, 0, 0),
+                                     (99, 12, 31, 23, 59, 59), (127, 6, 15, 1, 2, 3), (128, 2, 29, 4, 5, 6), (255, 12, 31, 23, 59, 59),
+                                     (24, 13, 1, 0, 0, 0), (24, 2, 30, 0, 0, 0), (24, 1, 1, 24, 0, 0)):
+            regs = fill_regs(fam, rnd, "random", [])
+            regs.update({t0: y << 8 | mo, t0 + 1: d << 8 | h, t0 + 2: mi << 8 | sec})
+            out.append({"set": {str(k): v for k, v in regs.items()}})
+    if fam == "ES":
         for bm in (0, 1, 2, 3, 4, 0xFF):
             for gio in (0, 1, 2, 3):
                 rt = bytearray(rnd.randrange(256) for _ in range(149))
